@@ -436,7 +436,7 @@ MPI_JOBS = [
     S("h_mpi", mpi(2, 2, P=2, n=1, tc=1), ["mpi.only_rank_zero_prints"]),
     # thorough
     S("h_mpi", mpi(0, 0, P=4, n=3, tc=1), MPI_EQ, tiers=T),
-    S("h_mpi", mpi(0, 0, P=4, n=2, tc=5, fk=5), MPI_EQ, tiers=T, split=8),
+    S("h_mpi", mpi(0, 0, P=4, n=2, tc=5, fk=2), MPI_EQ, tiers=T, split=8),
     S("h_mpi", mpi(0, 1, P=2, n=2, tc=1, fk=1), MPI_EQ, tiers=T, split=12),
     S("h_mpi", mpi(0, 1, P=3, n=2, tc=2, fk=1, user=1), MPI_EQ, tiers=T, split=12),
     S("h_mpi", mpi(0, 2, P=2, n=2, tc=2, fk=1), MPI_EQ, tiers=T, split=8),
@@ -537,7 +537,6 @@ USED_JOBS = [
     S("h_driver", drv(5, 0, n=2, cp=3, fk=2, used=1, fc=2), ["builtin.decision_depends_only"]),
     S("h_driver", drv(5, 0, n=2, cp=3, fk=2, unit=1, fc=2), ["builtin.stops_iff"]),
     S("h_driver", drv(10, 0, n=2, cp=3, fk=2, fc=2), ["resume.with_target_precision"]),
-    S("h_driver", drv(10, 1, n=2, cp=3, fk=2, fc=2), ["resume.with_target_precision"], tiers=T, split=8),
     S("h_driver", drv(5, 0, n=2, cp=3, fk=2, used=1, t0=1), ["builtin.decision_depends_only"]),
 ]
 PLAN["C12"]["jobs"] = PLAN["C12"]["jobs"] + USED_JOBS
@@ -571,7 +570,7 @@ DISTBIN_JOBS = [
 ]
 PLAN["C06"]["jobs"] = PLAN["C06"]["jobs"] + DISTBIN_JOBS
 PLAN["C11"]["jobs"] = PLAN["C11"]["jobs"] + DISTBIN_JOBS
-MPI_B3 = [S("h_mpi", mpi(0, 1, P=2, n=2, tc=0, fk=1, B=3), MPI_EQ), S("h_mpi", mpi(0, 1, P=3, n=2, tc=1, fk=1, B=3), MPI_EQ, tiers=T, split=12)]
+MPI_B3 = [S("h_mpi", mpi(0, 1, P=2, n=2, tc=0, fk=1, B=3), MPI_EQ), S("h_mpi", mpi(0, 1, P=3, n=2, tc=0, fk=1, B=3), MPI_EQ, tiers=T, split=12)]
 for _p in ("C04", "C19", "C07"):
     PLAN[_p]["jobs"] = PLAN[_p]["jobs"] + MPI_B3
 PLAN["C20"]["jobs"] = PLAN["C20"]["jobs"] + [S("h_driver", drv(6, 0, n=1, cp=3, fk=2, unit=1), ["modes.decision_identical"]),
